@@ -14,6 +14,7 @@ mod single;
 pub mod c07_dup;
 mod c08_order;
 mod c09_retry;
+mod c16_drop;
 mod c17_nonacq;
 mod probe;
 pub mod col;
